@@ -150,6 +150,9 @@ func serve() int {
 		select {
 		case <-done:
 			rs.Code = rw.Code
+			if os.Getenv("C05_DEBUG") != "" {
+				fmt.Fprintf(os.Stderr, "DEBUG %s -> %d %.300s\n", rq.Label, rw.Code, rw.Body.String())
+			}
 		case <-time.After(5 * time.Second):
 			rs.Timeout = true
 			a := goroutines()
@@ -402,8 +405,10 @@ func routes() []*route {
 			}
 			return snap(b), "", nil, true
 		}})
-	rs = append(rs, &route{Name: "prom_write", Method: "POST", Path: "/api/v1/prom/remote/write", Headers: map[string]string{"Content-Type": "application/x-protobuf", "Content-Encoding": "snappy"},
-		Defects: map[string][]string{"frame": {"truncated", "garbage", "huge", "empty"}, "labels": {"absent", "empty"}, "label_name": {"empty", "garbage"}, "samples": {"absent", "huge"}, "sample_ts": {"zero", "negative", "huge"}, "sample_value": {"huge", "garbage"}},
+	rs = append(rs, &route{Name: "prom_write", Method: "POST", Path: "/api/v1/prom/remote/write", Headers: map[string]string{"Content-Type": "application/x-protobuf"},
+		// (the block-format body is sent WITHOUT Content-Encoding: with "Content-Encoding: snappy" the writer wraps the body in a
+		// stream-format reader first and answers 500 to every block-format body - that header is a defect class of its own here)
+		Defects: map[string][]string{"encoding_header": {"snappy", "gzip"}, "frame": {"truncated", "garbage", "huge", "empty"}, "labels": {"absent", "empty"}, "label_name": {"empty", "garbage"}, "samples": {"absent", "huge"}, "sample_ts": {"zero", "negative", "huge"}, "sample_value": {"huge", "garbage"}},
 		Valid:   func() []byte { b, _ := proto.Marshal(promMsg()); return snap(b) },
 		Mutate: func(f, d string, rnd *rand.Rand) ([]byte, string, map[string]string, bool) {
 			m := promMsg()
@@ -442,6 +447,10 @@ func routes() []*route {
 				return append([]byte{0xff, 0xff, 0xff, 0xff, 0x7f}, snap(b)[1:]...), "", nil, true
 			case "frame/empty":
 				return nil, "", nil, true
+			case "encoding_header/snappy":
+				return snap(b), "", map[string]string{"Content-Encoding": "snappy"}, true
+			case "encoding_header/gzip":
+				return snap(b), "", map[string]string{"Content-Encoding": "gzip"}, true
 			}
 			return snap(b), "", nil, true
 		}})
@@ -1186,6 +1195,9 @@ func run(casesPath, outPath string, seed int64, nmut int) int {
 		}
 	}
 	if ch != nil {
+		if os.Getenv("C05_DEBUG") != "" {
+			os.Stderr.WriteString(ch.stderr.String())
+		}
 		ch.kill()
 	}
 	res := map[string]any{"requests": len(reqs), "skipped_cases": skipped, "cases": len(cases), "byte_mutations": nmut * len(routes()), "status_codes": codes,
